@@ -845,6 +845,7 @@ class SizeEval:
             return self.ev(n, env, sr, depth)
         for s in n.get("stmts", []):
             if s["k"] == "let" and s["pat"].get("k") == "bind" and "init" in s:
+                self.__dict__.setdefault("let_exprs", {})[s["pat"]["name"]] = s["init"]
                 env[s["pat"]["name"]] = self.ev(s["init"], env, sr, depth)
             elif s["k"] in ("semi", "expr"):
                 self.stmt(s["e"], env, sr, depth)
@@ -1061,6 +1062,35 @@ class SizeEval:
                     return {("sum", coll, tuple(sorted(res.items(), key=repr))): 1}
             if m in ("into", "clone") and not e["args"]:
                 return self.ev(e["recv"], env, sr, depth)
+            if m == "count_ones" and not e["args"]:
+                # (flags & MASK).count_ones(): in a shape cell every flag test `flags&0x<bit>` is decided, so the count is
+                # the number of mask bits whose test is true
+                inner = e["recv"]
+                for _ in range(4):
+                    if inner.get("k") in ("cast",) or (inner.get("k") == "block" and not inner.get("stmts") and "expr" in inner):
+                        inner = inner["e"] if "e" in inner else inner["expr"]
+                    elif inner.get("k") == "path" and inner.get("res") == "local" and inner.get("name") in self.__dict__.get("let_exprs", {}):
+                        inner = self.let_exprs[inner["name"]]
+                    else:
+                        break
+                if inner.get("k") == "bin" and inner["op"] == "BitAnd":
+                    for var, msk in ((inner["l"], inner["r"]), (inner["r"], inner["l"])):
+                        c = LY.const_of(self.fx, msk)
+                        vs = leaf(LY.norm_expr(var))
+                        if isinstance(c, int) and vs:
+                            total = 0
+                            known = True
+                            bit = 1
+                            while bit <= c:
+                                if c & bit:
+                                    v = self.A.get("%s&0x%x" % (vs, bit))
+                                    if v is None:
+                                        known = False
+                                        break
+                                    total += 1 if v else 0
+                                bit <<= 1
+                            if known:
+                                return lin_const(total)
         if k == "call":
             fid = e.get("resolved") or e.get("fn")
             if (e.get("fn") or "").endswith("From::from") and len(e["args"]) == 1:
